@@ -653,6 +653,29 @@ func c13Concurrent(rep *vrep.Report, w *vWorld) {
 	w.deliver(gc2.MessageStore(), reverseCids(s1))
 	w.deliver(gc3.MetadataStore(), append(append([]cid.Cid{}, m2...), m1...))
 	w.deliver(gc3.MessageStore(), append(append([]cid.Cid{}, s1...), s2...))
+	// on one replica, with concurrent entries in the range: the reversed listing is the exact reverse of the forward one
+	for gi, gc := range []*GroupContext{gc1, gc2, gc3} {
+		fwd, err := listMeta(ctx, gc.MetadataStore(), nil, nil, false)
+		vmust(err)
+		bwd, err := listMeta(ctx, gc.MetadataStore(), nil, nil, true)
+		vmust(err)
+		fm, err := listMsg(ctx, gc.MessageStore(), nil, nil, false)
+		vmust(err)
+		bm, err := listMsg(ctx, gc.MessageStore(), nil, nil, true)
+		vmust(err)
+		rev := func(x []string) string {
+			y := append([]string{}, x...)
+			for i, j := 0, len(y)-1; i < j; i, j = i+1, j-1 {
+				y[i], y[j] = y[j], y[i]
+			}
+			return strings.Join(y, ",")
+		}
+		ok := rev(fwd) == strings.Join(bwd, ",") && rev(fm) == strings.Join(bm, ",")
+		rep.Eval(fmt.Sprintf("concurrent-writers/reverse-is-exact-reverse=%v", ok))
+		if !ok {
+			rep.Violation("C13/reverse-not-exact-reverse", fmt.Sprintf("replica %d holds entries written concurrently by two devices: its reversed listing is not the exact reverse of its forward listing (metadata: %v, messages: %v)", gi, rev(fwd) == strings.Join(bwd, ","), rev(fm) == strings.Join(bm, ",")), c13Case{Store: "concurrent-reverse", N: len(fwd), Arrival: "concurrent", Since: -1, Until: -1, Reverse: true})
+		}
+	}
 	for _, rev := range []bool{false, true} {
 		var metas, msgs []string
 		for _, gc := range []*GroupContext{gc1, gc2, gc3} {
